@@ -7,6 +7,8 @@ Case format (JSON):
               "acts": [{"op": "sleep", "d": 2.0} | {"op": "fire", "type": str, "kw": {..}, "ctx": "none"|"occ"|{"val": v}}
                        | {"op": "set"}
                        | {"op": "call", "svc": "none"|"opt"|"only", "form": "direct"|"call", ["return_response": b], ["blocking": b]}]}],
+   (optional per func: "file": "a"|"b"; sched may contain {"kind": "reload", "file": "a"} = pyscript.reload of that file only;
+    {"op": "set", "form": "func"|"stmt", "step": "create"|"setattr"|"delattr"|"delete", "base": index of the group's create})
    "sched": [{"wait": s, "settle": bool, "kind": "event", "key": str, "data": {..}}
              | {.., "kind": "mqtt", "topic": str, "payload": str, "qos": int, "retain": bool}
              | {.., "kind": "webhook", "key": str, "json": {..} | "form": [[k, v], ..]}],
@@ -296,9 +298,35 @@ def q_ctxv(c, p):
     return "{| c_id := %s; c_parent := %s |}" % (q.N(c if c is not None else 0), q.option(q.N(p) if p is not None else None))
 
 
+def n_epochs(case):
+    return 1 + sum(1 for e in case["sched"] if e["kind"] == "reload")
+
+
+def file_epochs(case, fname):
+    """epoch ranges of the successive incarnations of a file's functions: a reload of the file ends one and begins the next"""
+    cuts, ep = [], 0
+    for e in case["sched"]:
+        if e["kind"] == "reload":
+            ep += 1
+            if e["file"] == fname:
+                cuts.append(ep)
+    bounds = [0] + cuts + [n_epochs(case)]
+    return [list(range(bounds[k], bounds[k + 1])) for k in range(len(bounds) - 1)]
+
+
+def trig_table(case):
+    """flat list of decorator incarnations: (func name, dec dict, incarnation number, epochs)"""
+    out = []
+    for fn in case["funcs"]:
+        for inc, eps in enumerate(file_epochs(case, fn.get("file", "hello"))):
+            for d in fn["decs"]:
+                out.append((fn["name"], d, inc, eps))
+    return out
+
+
 def trig_list(case):
-    """flat list of decorators in source order: (func name, dec dict)"""
-    return [(fn["name"], d) for fn in case["funcs"] for d in fn["decs"]]
+    """(func name, dec dict) per decorator incarnation"""
+    return [(name, d) for name, d, _inc, _eps in trig_table(case)]
 
 
 def webhook_payload(ent):
@@ -310,24 +338,24 @@ def webhook_payload(ent):
     return out
 
 
-def occ_of_sched(ent, key, ctx):
-    """-> (kind, key, ctx, attrs dict, data dict, opt (has, value))"""
+def occ_of_sched(ent, key, ctx, ep=0):
+    """-> (kind, key, ctx, attrs dict, data dict, opt (has, value), epoch)"""
     kind = ent["kind"]
     if kind == "event":
-        return kind, key, ctx, {}, ent["data"], (False, None)
+        return kind, key, ctx, {}, ent["data"], (False, None), ep
     if kind == "mqtt":
         attrs = {"topic": ent["topic"], "payload": ent["payload"], "qos": ent["qos"], "retain": ent["retain"]}
         try:
-            return kind, key, None, attrs, {}, (True, json.loads(ent["payload"]))
+            return kind, key, None, attrs, {}, (True, json.loads(ent["payload"])), ep
         except ValueError:
-            return kind, key, None, attrs, {}, (False, None)
-    return kind, key, None, {"payload": webhook_payload(ent)}, {}, (False, None)
+            return kind, key, None, attrs, {}, (False, None), ep
+    return kind, key, None, {"payload": webhook_payload(ent)}, {}, (False, None), ep
 
 
 def q_occ(it, occ):
-    kind, key, ctx, attrs, data, (has, opt) = occ
-    return "{| o_kind := %s; o_key := %s; o_ctx := %s; o_attrs := %s; o_data := %s; o_opt := %s |}" % (
-        KIND[kind], q.N(it.sid(key)), q.option(q.N(ctx) if ctx is not None else None), q_kw(it, attrs), q_kw(it, data),
+    kind, key, ctx, attrs, data, (has, opt), ep = occ
+    return "{| o_kind := %s; o_key := %s; o_epoch := %s; o_ctx := %s; o_attrs := %s; o_data := %s; o_opt := %s |}" % (
+        KIND[kind], q.N(it.sid(key)), q.N(ep), q.option(q.N(ctx) if ctx is not None else None), q_kw(it, attrs), q_kw(it, data),
         q.option(q_val(it, opt) if has else None))
 
 
@@ -368,7 +396,7 @@ def _render_filter(f):
 
 
 def _base_args(occ):
-    kind, key, ctx, attrs, data, (has, opt) = occ
+    kind, key, ctx, attrs, data, (has, opt), _ep = occ
     if kind == "event":
         d = {"trigger_type": "event", "event_type": key, "context": {"$ctx": ctx}}
         d.update(data)
@@ -394,11 +422,11 @@ def _kw_key(d):
     return json.dumps({k: canon_val(v) for k, v in d.items()}, sort_keys=True)
 
 
-def expected_runs(dec, occs, when):
-    """-> [(canonical kwargs, trace index of the hand-over)] of the runs the decorator should start"""
+def expected_runs(dec, occs, when, epochs=None):
+    """-> [(canonical kwargs, trace index of the hand-over)] of the runs the decorator incarnation should start"""
     out = []
     for occ, j in zip(occs, when):
-        if occ[0] != dec["kind"] or occ[1] != dec["key"]:
+        if occ[0] != dec["kind"] or occ[1] != dec["key"] or (epochs is not None and occ[6] not in epochs):
             continue
         args = _base_args(occ)
         if _passes(dec, args):
@@ -411,11 +439,11 @@ def expected_runs(dec, occs, when):
 def compute_hints(case, occs, when, trace):
     """-> {index in trace of a 'running' entry: decorator index}; a run can only be attributed to an occurrence handed
     over before it"""
-    trigs = trig_list(case)
+    trigs = trig_table(case)
     hints = {}
     for fn in case["funcs"]:
-        tix = [i for i, (name, _d) in enumerate(trigs) if name == fn["name"]]
-        exp = [expected_runs(trigs[i][1], occs, when) for i in tix]
+        tix = [i for i, t in enumerate(trigs) if t[0] == fn["name"]]
+        exp = [expected_runs(trigs[i][1], occs, when, trigs[i][3]) for i in tix]
         obs = [(j, _kw_key(e["kw"])) for j, e in enumerate(trace) if e["o"] == "running" and e["fn"] == fn["name"]]
         # breadth-first over position vectors, remembering one assignment per vector
         states = {tuple(0 for _ in tix): []}
@@ -519,10 +547,42 @@ def gen_acts(rng, fire_types, long_sleep):
                 ctx = "none"  # a non-Context `context` in the data of a triggering event is D81 territory: keep it rare
             acts.append({"op": "fire", "type": typ, "kw": kw, "ctx": ctx})
         elif r < 0.72:
-            acts.append({"op": "set"})
+            acts += gen_set_group(rng, len(acts))
         else:
             acts.append(gen_call(rng))
     return acts
+
+
+SET_GROUPS = [["create"], ["create", "setattr"], ["create", "setattr", "delattr"], ["create", "delete"],
+              ["create", "setattr", "delete"], ["create", "setattr", "delattr", "delete"]]
+
+
+def gen_set_group(rng, base):
+    """consecutive state changes of one scratch entity through every API form a run has: state.set / state.setattr /
+    state.delete(attr) / state.delete(entity) on a per-run entity, or assignment / attribute assignment / `del x.attr` / `del x`
+    on a per-function entity (statement groups always end by removing the entity)"""
+    form = rng.choice(["func", "func", "stmt"])
+    steps = list(rng.choice(SET_GROUPS))
+    if form == "stmt" and steps[-1] != "delete":
+        steps.append("delete")
+    return [{"op": "set", "form": form, "step": st, "base": base} for st in steps]
+
+
+def add_reloads(rng, funcs, sched, share_hint=None):
+    """spread the functions over two script files and reload one of them (pyscript.reload global_ctx=file.x) between
+    hand-overs: the triggers of that file stop and start again while the other file's keep running"""
+    names = ["a", "b"]
+    for k, fn in enumerate(funcs):
+        fn["file"] = names[k % 2] if len(funcs) > 1 else "a"
+    for _ in range(rng.choice([1, 1, 2])):
+        pos = rng.randrange(1, len(sched) + 1) if sched else 0
+        sched.insert(pos, {"kind": "reload", "file": rng.choice(sorted({fn["file"] for fn in funcs}))})
+    # make sure something is handed over after the last reload
+    last = max(i for i, e in enumerate(sched) if e["kind"] == "reload")
+    tail = [dict(e) for e in sched[:last] if e["kind"] != "reload"]
+    for e in rng.sample(tail, min(len(tail), rng.choice([1, 2, 3]))):
+        e.pop("wait", None)
+        sched.append(e)
 
 
 def gen_call(rng):
@@ -618,31 +678,36 @@ class FlowStream(Stream):
         occs, when = [], []
         for j, e in enumerate(obs["trace"]):
             if e["o"] == "bus":
-                occs.append(occ_of_sched(case["sched"][e["i"]], e["key"], e["ctx"]))
+                occs.append(occ_of_sched(case["sched"][e["i"]], e["key"], e["ctx"], e.get("ep", 0)))
                 when.append(j)
             elif e["o"] == "fire":
-                occs.append(("event", e["type"], e["ctx"], {}, e["data"], (False, None)))
+                occs.append(("event", e["type"], e["ctx"], {}, e["data"], (False, None), e.get("ep", 0)))
                 when.append(j)
         return occs, when
 
     def to_coq(self, case, obs):
         it = Interner()
-        trigs = trig_list(case)
+        trigs = trig_table(case)
         fid = {fn["name"]: 100 + i for i, fn in enumerate(case["funcs"])}
         qtrigs = []
-        for name, d in trigs:
-            qtrigs.append("{| t_func := %s; t_kind := %s; t_key := %s; t_filter := %s; t_kwargs := %s |}" % (
-                q.N(fid[name]), KIND[d["kind"]], q.N(it.sid(d["key"])),
+        for name, d, inc, eps in trigs:
+            qtrigs.append("{| t_func := %s; t_dm := %s; t_epochs := %s; t_kind := %s; t_key := %s; t_filter := %s; t_kwargs := %s |}" % (
+                q.N(fid[name]), q.N(fid[name] + 1000 * inc), q.lst(q.N(e) for e in eps), KIND[d["kind"]], q.N(it.sid(d["key"])),
                 q.option(q_filter(it, d["filter"]) if d.get("filter") is not None else None), q_kw(it, d.get("kwargs") or {})))
-        # webhook registration attempts -> decorator indices (new subsystem only)
+        # webhook registrations / unregistrations -> decorator indices (new subsystem only)
         order = []
         if not case["legacy"]:
             used = set()
             for att in obs.get("reg", []):
-                for i, (name, d) in enumerate(trigs):
-                    if i not in used and d["kind"] == "webhook" and name == att["fn"] and d["key"] == att["key"]:
+                for i, (name, d, _inc, eps) in enumerate(trigs):
+                    if d["kind"] != "webhook" or d["key"] != att["key"]:
+                        continue
+                    if att.get("op", "reg") == "unreg":
+                        order.append((False, i))
+                        break
+                    if i not in used and name == att["fn"] and att.get("ep", 0) in eps:
                         used.add(i)
-                        order.append(i)
+                        order.append((True, i))
                         break
         scripts = []
         for fn in case["funcs"]:
@@ -666,7 +731,7 @@ class FlowStream(Stream):
         for j, e in enumerate(trace):
             o = e["o"]
             if o == "bus":
-                qobs.append(f"OBus {q_occ(it, occ_of_sched(case['sched'][e['i']], e['key'], e['ctx']))}")
+                qobs.append(f"OBus {q_occ(it, occ_of_sched(case['sched'][e['i']], e['key'], e['ctx'], e.get('ep', 0)))}")
             elif o == "running":
                 qobs.append(f"ORunning {q.nat(hints.get(j, 0))} {q.N(fid.get(e['fn'], 99))} {q_kw(it, e['kw'])} {q_ctxv(e['ctx'], e['par'])}")
             elif o == "begin":
@@ -674,7 +739,7 @@ class FlowStream(Stream):
             elif o == "fire":
                 ai = e["ai"] if isinstance(e["ai"], int) and 0 <= e["ai"] < 1000 else 999
                 rid = e["rid"] if isinstance(e["rid"], int) else -1
-                qobs.append(f"OFire {q.Z(rid)} {q.nat(ai)} {q.N(it.sid(e['type']))} {q_kw(it, e['data'])} {q_ctxv(e['ctx'], e['par'])}")
+                qobs.append(f"OFire {q.Z(rid)} {q.nat(ai)} {q.N(it.sid(e['type']))} {q_kw(it, e['data'])} {q_ctxv(e['ctx'], e['par'])} {q.N(e.get('ep', 0))}")
             elif o in ("set", "call"):
                 ai = e["ai"] if isinstance(e["ai"], int) and 0 <= e["ai"] < 1000 else 999
                 rid = e["rid"] if isinstance(e["rid"], int) else -1
@@ -682,7 +747,7 @@ class FlowStream(Stream):
         if obs.get("crash"):
             qobs.append("OBegin (-1)%Z 0%N [] {| c_id := 0%N; c_parent := None |}")  # never a path: the driver crashed
         return "{| ec_legacy := %s; ec_trigs := %s; ec_order := %s; ec_scripts := %s; ec_obs := %s |}" % (
-            q.boolean(case["legacy"]), q.lst(qtrigs), q.lst(q.nat(i) for i in order), q.lst(scripts), q.lst("(" + t + ")" for t in qobs))
+            q.boolean(case["legacy"]), q.lst(qtrigs), q.lst(f"({q.boolean(b)}, {q.nat(i)})" for b, i in order), q.lst(scripts), q.lst("(" + t + ")" for t in qobs))
 
     # ---- evidence ----
     def nontrivial(self, case, obs):
@@ -751,6 +816,8 @@ class EventStream(FlowStream):
                 add_raise_then_ok(rng, funcs, sched)
             if rng.random() < 0.04:
                 rng.choice(sched)["data"]["context"] = rng.choice(["zzz", 5])  # D81 territory
+            if rng.random() < 0.3:
+                add_reloads(rng, funcs, sched)
             case = {"legacy": legacy, "funcs": funcs, "sched": sched}
             case["tail"] = tail_of(case)
             cases.append(case)
@@ -822,6 +889,8 @@ class MqttStream(FlowStream):
                 sched.insert(pos, {"kind": "mqtt", "topic": "pv/a", "payload": "\"s\"", "qos": 0, "retain": False})
                 for _ in range(rng.choice([1, 2])):
                     sched.insert(rng.randrange(pos + 1, len(sched) + 1), {"kind": "mqtt", "topic": "pv/a", "payload": "1", "qos": 1, "retain": False})
+            if rng.random() < 0.3:
+                add_reloads(rng, funcs, sched)
             case = {"legacy": legacy, "funcs": funcs, "sched": sched}
             case["tail"] = tail_of(case)
             cases.append(case)
@@ -842,7 +911,7 @@ class WebhookStream(FlowStream):
         ids = ["hook1", "hook2", "hook3"]
         while len(cases) < budget:
             legacy = len(cases) % 2 == 0
-            share = rng.random() < 0.3
+            share = rng.random() < 0.4
             funcs = []
             free = list(ids)
             rng.shuffle(free)
@@ -883,6 +952,8 @@ class WebhookStream(FlowStream):
                 sched.append(ent)
             if rng.random() < 0.3:
                 add_raise_then_ok(rng, funcs, sched, ["pv_e0"])
+            if rng.random() < 0.3:
+                add_reloads(rng, funcs, sched)
             case = {"legacy": legacy, "funcs": funcs, "sched": sched}
             case["tail"] = tail_of(case)
             cases.append(case)
